@@ -65,6 +65,30 @@ let op_of_tok t : fl op =
   | ["W"] -> Write
   | ["S"; ws; wo] -> StreamInto (fls_of_tok ws, fls_of_tok wo)
   | _ -> failwith ("bad op " ^ t)
+(* a value: `v=<doubles>` | `s=<axis>=<indices>` (a view of this record) | `o=<ints>=<scale>=<offset>` (a view of another record) *)
+let natlist_of_tok s = if s = "-" then [] else List.map (fun x -> nat_of_int (int_of_string x)) (String.split_on_char ',' s)
+let vsrc_of_tok t : fl vsrc =
+  match String.split_on_char '=' t with
+  | ["v"; a] -> VVals (fls_of_tok a)
+  | ["s"; ax; idx] -> VSelf (nat_of_int (int_of_string ax), natlist_of_tok idx)
+  | ["o"; xs; s; o] -> VOther (zlist_of_tok xs, fl_of_tok s, fl_of_tok o)
+  | _ -> failwith ("bad value " ^ t)
+let sop_of_tok t : fl sop =
+  match String.split_on_char ':' t with
+  | ["SA"; ax; v] -> SAttr (nat_of_int (int_of_string ax), vsrc_of_tok v)
+  | ["SI"; ax; v] -> SItem (nat_of_int (int_of_string ax), vsrc_of_tok v)
+  | ["SP"; ax; v] -> SRecAttr (nat_of_int (int_of_string ax), vsrc_of_tok v)
+  | ["SV"; ax; idx; v] -> SView (nat_of_int (int_of_string ax), natlist_of_tok idx, vsrc_of_tok v)
+  | ["SX"; a; b; c] -> SItems [fls_of_tok a; fls_of_tok b; fls_of_tok c]
+  | ["PRS"; a] -> SRecReplaceS (fls_of_tok a)
+  | ["PRO"; a] -> SRecReplaceO (fls_of_tok a)
+  | ["PMS"; ax; v] -> SRecMutateS (nat_of_int (int_of_string ax), fl_of_tok v)
+  | ["PMO"; ax; v] -> SRecMutateO (nat_of_int (int_of_string ax), fl_of_tok v)
+  | ["WO"] -> SOpenHdr
+  | ["WO"; ws; wo; pre] -> SOpenWith (fls_of_tok ws, fls_of_tok wo, cols_of_tok pre)
+  | ["WW"] -> SWrite
+  | ["WC"] -> SClose
+  | _ -> SBase (op_of_tok t)
 let tok_of_out = function
   | ONone -> "-"
   | OErr e -> "err " ^ err_name e
@@ -90,6 +114,11 @@ let handle line =
     let ops = if ops = "-" then [] else List.map op_of_tok (String.split_on_char '|' ops) in
     let _, outs = List.fold_left (fun (s, acc) o -> let (s1, x) = f_step s o in (s1, (tok_of_out x ^ " # " ^ tok_of_state s1) :: acc)) (s0, []) ops in
     tok_of_state s0 ^ " | " ^ String.concat " | " (List.rev outs)
+  | ["shist"; sc; off; cols; ops] ->
+    let s0 = { base = f_init (fls_of_tok sc) (fls_of_tok off) (cols_of_tok cols); wr = None } in
+    let ops = if ops = "-" then [] else List.map sop_of_tok (String.split_on_char '|' ops) in
+    let _, outs = List.fold_left (fun (s, acc) o -> let (s1, x) = f_sstep s o in (s1, (tok_of_out x ^ " # " ^ tok_of_state s1.base) :: acc)) (s0, []) ops in
+    tok_of_state s0.base ^ " | " ^ String.concat " | " (List.rev outs)
   | _ -> "bad command"
 
 let () =
